@@ -438,7 +438,8 @@ class Scenario:
         elif name.startswith("rt:"):
             # rt:<origin a|b>:<T 0|1>:<end-to-end id from a small pool>   (requests relayed for two origin hosts)
             parts = name.split(":")
-            origin = {"a": "origin-a.example.org", "b": "origin-b.example.org", "p": host}[parts[1]]      # p: the peer itself is the origin
+            # p: the peer itself is the origin; c: an origin host that spells its name with capital letters
+            origin = {"a": "origin-a.example.org", "b": "origin-b.example.org", "p": host, "c": "Origin-C.Example.ORG"}[parts[1]]
             d = env.acr(host=origin, hbh=hbh, e2e=0x7000 + int(parts[3]), flags=R | P | (T if parts[2] == "1" else 0))
         elif name.startswith("rx:") or name.startswith("rx1:"):
             # rx:<origin a|b|p>:<T 0|1>:<k>   hop-by-hop AND end-to-end id from one pool: requests of different origin hosts arriving on
